@@ -16,6 +16,7 @@ import (
 	"math/rand"
 	"net/http"
 	"net/url"
+	"os"
 	"sort"
 	"strconv"
 	"strings"
@@ -257,8 +258,13 @@ func runResp(d desc) hlib.Case {
 	}
 	prog := d.Prog
 	cur.Store(&prog)
+	t0 := time.Now()
 	n := roundtrip(lnNet, req)
+	t1 := time.Now()
 	a := roundtrip(lnFast, req)
+	if os.Getenv("C36_SLOW") != "" && time.Since(t0) > time.Second {
+		fmt.Fprintf(os.Stderr, "slow: nethttp %v adaptor %v req=%s prog=%s\n", t1.Sub(t0), time.Since(t1), d.Req, coqProg(prog))
+	}
 	pc := classify(prog)
 	size := 0
 	for _, o := range prog {
